@@ -137,11 +137,12 @@ def main(argv=None):
     sub.add_parser("selftest")
     b = sub.add_parser("baseline")
     b.add_argument("--jobs", type=int, default=16)
+    b.add_argument("--only", default="", help="comma separated property ids: regenerate only these, keep the others")
     args = ap.parse_args(argv)
     if args.cmd == "check":
         return check(args.prop, args.tier, args.jobs, not args.no_evidence)
     if args.cmd == "baseline":
-        return baseline(args.jobs)
+        return baseline(args.jobs, [p for p in args.only.split(",") if p])
     if args.cmd == "selftest":
         from . import selftest
 
@@ -275,11 +276,11 @@ def check(prop, tier, jobs, write_evidence=True):
     return code
 
 
-def baseline(jobs):
+def baseline(jobs, only=()):
     from . import evidence
 
-    data = {}
-    for prop in PROPS:
+    data = evidence.load_baseline() if only else {}
+    for prop in only or PROPS:
         ts, results, wall = run_all(prop, "quick", jobs)
         obs = {}
         for r in results:
